@@ -198,11 +198,11 @@ def array_pass(ctx, np):
     for sig in ([1, 1, 1], [0, 1, 1]):
         alg = make_algebra(sig)
         for shape in shapes:
-            for container in ('ndarray', 'list'):
+            for container in ('ndarray', 'list', 'tuple'):
                 kx = rng.sample(range(8), 3); ky = rng.sample(range(8), 3)
                 def mk(keys):
                     arrs = [rng_array(rng, shape, np) for _ in keys]
-                    vals = np.array(arrs) if container == 'ndarray' else arrs
+                    vals = np.array(arrs) if container == 'ndarray' else tuple(arrs) if container == 'tuple' else arrs
                     return MultiVector.fromkeysvalues(alg, tuple(keys), vals)
                 X, Y = mk(kx), mk(ky)
                 idxs = index_exprs(rng, shape)
@@ -241,7 +241,7 @@ def array_pass(ctx, np):
                     before = [np.array(v, dtype=float).copy() for v in Xc.values()]
                     newv = 1000.0
                     try:
-                        Xc[idx] = [newv] * len(kx) if container == 'list' else newv
+                        Xc[idx] = [newv] * len(kx) if container in ('list', 'tuple') else newv
                     except Exception as e:
                         ctx.count('setitem-raises:' + type(e).__name__)
                         # does plain numpy accept the same assignment on each coefficient array?
